@@ -861,7 +861,7 @@ class Association(threading.Thread):
         except ValueError:
             # SOP Class not supported, no context ID?
             rsp.Status = 0x0122
-            self.dimse.send_msg(rsp, 1)
+            self.dimse.send_msg(rsp, cast(int, req._context_id))
             return
 
         # Attempt to handle the service request
